@@ -102,3 +102,25 @@ Theorem C07_anchor_before : forall (r : rule) (A a d S : Z) (i : ivl),
   fend i <= A.
 Proof. exact anchor_before. Qed.
 Print Assumptions C07_anchor_before.
+
+(* seen from the rrule dtstart the series is the same series: phase counted from dtstart's period
+   and missing BYxxx parts taken from dtstart select exactly the dates of the series aligned to
+   the base anchor date *)
+Theorem C07_anchor_series : forall (r : rule) (sd a : Z),
+  0 < r_interval r ->
+  safe_anchor r sd = Some a ->
+  forall c, matches_s (series_from r a) c = matches_s (series_of r) c.
+Proof. exact anchor_series. Qed.
+Print Assumptions C07_anchor_series.
+
+(* the look-back theorem under the executable zone check the harness applies to every table *)
+Theorem C07_anchor_before_checked_zone : forall (r : rule) (A a d : Z) (i : ivl),
+  0 < r_interval r ->
+  0 <= r_sod r < DAY ->
+  zone_spread_ok (r_zone r) = true ->
+  safe_anchor r (local_day (r_zone r) (A - lookback_buffer r)) = Some a ->
+  d < a ->
+  occurrence_to_interval r d = Some i ->
+  fend i <= A.
+Proof. exact anchor_before_checked_zone. Qed.
+Print Assumptions C07_anchor_before_checked_zone.
